@@ -178,6 +178,8 @@ func addTarget(graph *core.BuildGraph, m targetMap, target *core.BuildTarget) {
 	}
 	// A hidden target only exists as long as the rule that generates it does, so that has to stay too.
 	addTarget(graph, m, target.Parent(graph))
+	// Similarly anything that shares its fate with another target keeps that target alive.
+	addTarget(graph, m, gcSibling(graph, target))
 }
 
 // anyInclude returns true if any of the given labels include this one.
